@@ -317,10 +317,16 @@ func runOffer2(o *Out, r *rand.Rand, thorough bool, _ []string) {
 			var mask []string
 			for k := 0; k < nKeys; k++ {
 				key := []byte(fmt.Sprintf("o-%d-%d-%d-%d", pi, c, k, r.Intn(1000)))
+				stored := r.Intn(3) == 0
+				if k > 0 && r.Intn(5) == 0 {
+					// the same key offered again within one offer (with other content): one verdict and one item per POSITION
+					e := r.Intn(k)
+					key = entries[e].ContentKey
+					stored = mask[e][0] == '1'
+				}
 				idh := sha256.Sum256(key)
 				size := []int{0, 1, 50, 1000, 3000}[r.Intn(5)]
 				val := genBytes(size, k+c)
-				stored := r.Intn(3) == 0
 				if stored {
 					_ = b.store.Put(key, idh[:], []byte{9})
 				}
@@ -352,14 +358,18 @@ func runOffer2(o *Out, r *rand.Rand, thorough bool, _ []string) {
 			select {
 			case el := <-b.queue:
 				var parts []string
+				used := map[int]bool{}
 				for i := range el.ContentKeys {
-					// position of the key among the offered ones
+					// position of the key among the offered ones (a repeated key: the first position not yet matched that
+					// was not declined as stored)
 					pos := -1
 					for k, e := range entries {
-						if bytes.Equal(e.ContentKey, el.ContentKeys[i]) {
+						if !used[k] && mask[k][0] == '0' && bytes.Equal(e.ContentKey, el.ContentKeys[i]) {
 							pos = k
+							break
 						}
 					}
+					used[pos] = true
 					cont := "missing"
 					if i < len(el.Contents) {
 						cont = canon(el.Contents[i])
